@@ -385,6 +385,9 @@ def domain_case(case):
             # a class whose weighted scatter is exactly zero (all its mass on all-zero frames): every eigenvalue equal
             if np.any(np.all(lam == lam[..., :1], axis=-1) & (lam[..., 0] <= 1e-10)):
                 rec['fp'] += ';zero_scatter_class'
+        if ctx.get('sam') is not None and np.any(~np.any(ctx['sam'], axis=-2)):
+            # the source-activity mask declares every source inactive for some observation
+            rec['fp'] += ';all_inactive_observations'
         if 'complex_bingham' in getattr(ctx['model'], '__dataclass_fields__', {}):
             lam = np.asarray(ctx['model'].complex_bingham.covariance_eigenvalues)
             mx = lam.max(-1)
